@@ -356,7 +356,7 @@ def build_all(ctx, cfgs, workers=6):
 
     def one(c):
         try:
-            return c.tag, ctx.build_harness("c09_drv.cpp", c.tag, c.flags)
+            return c.tag, ctx.build_harness("c09_drv.cpp", c.tag, list(c.flags) + core.release_flags(c.tag))
         except core.CheckError as e:
             errs.append(str(e))
             return c.tag, None
